@@ -827,21 +827,54 @@ def _gen_cs_deredden(repo, p2c, out):
 
 
 def _gen_cs_ts_downsample(repo, p2c, out):
+    """TimeSeries.downsample, statement by statement (anything else is refused):
+         [if <test on factor>: return self]      -> ts_downsample_returns_self
+         v = stats.downsample_1d(self.data, <factor expression>, method=filter_method)   -> ts_downsample_factor_arg
+         [hdr = {...}]                             header entries belong to C08; `nsamples` must be len(v)
+         return TimeSeries(v, ...)                 the decimated array itself, unchanged, is the data of the result"""
     ts = ast.parse(open(f"{repo}/sigpyproc/timeseries.py").read())
-    # TimeSeries.downsample
     fn = _method(ts, "TimeSeries", "downsample")
+    if [a.arg for a in fn.args.args] != ["self", "factor", "filter_method"]:
+        raise _U("TimeSeries.downsample signature changed")
     call = _find_call(fn, "stats.downsample_1d")
     b = _bind(call, ["array", "factor", "method"])
-    if b != {"array": "self.data", "factor": "factor", "method": "filter_method"}:
+    if b.get("array") != "self.data" or b.get("method") != "filter_method" or "factor" not in b:
         raise _U("TimeSeries.downsample: arguments " + str(b))
-    ident_f = None
+    fac_expr = call.args[1] if len(call.args) > 1 else [k.value for k in call.keywords if k.arg == "factor"][0]
+    if {n.id for n in ast.walk(fac_expr) if isinstance(n, ast.Name)} - {"factor"}:
+        raise _U("TimeSeries.downsample: factor argument " + ast.unparse(fac_expr))
+    ident_f, self_test, data_name, seen_call, seen_ret = None, None, None, False, False
     for s in _body(fn):
-        if isinstance(s, ast.If) and len(s.body) == 1 and isinstance(s.body[0], ast.Return) and ast.unparse(s.body[0].value) == "self":
-            if not (isinstance(s.test, ast.Compare) and ast.unparse(s.test.left) == "factor" and isinstance(s.test.ops[0], ast.Eq)):
+        if seen_ret:
+            raise _U("TimeSeries.downsample: statement after the return")
+        if isinstance(s, ast.If) and not seen_call:
+            if self_test is not None or s.orelse or not (len(s.body) == 1 and isinstance(s.body[0], ast.Return) and ast.unparse(s.body[0].value) == "self"):
+                raise _U("TimeSeries.downsample: branch " + ast.unparse(s.test))
+            if {n.id for n in ast.walk(s.test) if isinstance(n, ast.Name)} - {"factor"}:
                 raise _U("TimeSeries.downsample: identity shortcut " + ast.unparse(s.test))
-            ident_f = _zx(s.test.comparators[0], p2c)
-    out.append("(* from TimeSeries.downsample: returns self for this factor, else stats.downsample_1d(self.data, factor, method=filter_method) *)")
+            self_test = s.test
+            if isinstance(s.test, ast.Compare) and ast.unparse(s.test.left) == "factor" and len(s.test.ops) == 1 and isinstance(s.test.ops[0], ast.Eq):
+                ident_f = _zx(s.test.comparators[0], p2c)
+        elif isinstance(s, ast.Assign) and s.value is call and len(s.targets) == 1 and isinstance(s.targets[0], ast.Name) and not seen_call:
+            data_name, seen_call = s.targets[0].id, True
+        elif isinstance(s, ast.Assign) and seen_call and isinstance(s.value, ast.Dict) and isinstance(s.targets[0], ast.Name):
+            for k, v in zip(s.value.keys, s.value.values):
+                if ast.unparse(k) == "'nsamples'" and ast.unparse(v) != f"len({data_name})":
+                    raise _U("TimeSeries.downsample: header nsamples is " + ast.unparse(v))
+        elif isinstance(s, ast.Return) and seen_call:
+            r = s.value
+            if not (isinstance(r, ast.Call) and ast.unparse(r.func) == "TimeSeries" and r.args and isinstance(r.args[0], ast.Name) and r.args[0].id == data_name):
+                raise _U("TimeSeries.downsample: return form " + ast.unparse(r))
+            seen_ret = True
+        else:
+            raise _U("TimeSeries.downsample: statement " + ast.unparse(s)[:80])
+    if not seen_ret:
+        raise _U("TimeSeries.downsample: no return of the decimated series")
+    out.append("(* from TimeSeries.downsample: returns self when ts_downsample_returns_self, else TimeSeries(stats.downsample_1d(self.data, "
+               "ts_downsample_factor_arg, method=filter_method), ...) with header nsamples = len of that array *)")
     out.append(f"Definition ts_downsample_identity_factors : list Z := [{ident_f if ident_f is not None else ''}].")
+    out.append(f"Definition ts_downsample_returns_self (factor : Z) : bool := {_zb(self_test, p2c) if self_test is not None else 'false'}.")
+    out.append(f"Definition ts_downsample_factor_arg (factor : Z) : Z := {_zx(fac_expr, p2c)}.")
 
 
 def _gen_cs_block_downsample(repo, p2c, out):
